@@ -444,6 +444,22 @@ def check_zero_terms(ck):
     ck.run("where-all-false", "zero-terms", lambda: numpoly.where([False] * 3, arr, 0), {(0, 0): z3}, None)
     f = numpoly.polynomial([1.5 * q0, q1])
     ck.run("float a-a", "zero-terms", lambda: f - f, {(0, 0): numpy.zeros(2)}, "float64")
+    # exponents without any coefficient: an error, or zeros - never memory nobody wrote
+    for name, fn in (("polynomial_from_attributes(exponents, [])", lambda: numpoly.polynomial_from_attributes([[1], [2], [3]], [])),
+                     ("ndpoly.from_attributes(exponents, [])", lambda: numpoly.ndpoly.from_attributes([[1], [2]], []))):
+        ck.n += 1
+        hooks.poison(True)
+        try:
+            r = fn()
+        except Exception:
+            hooks.poison(False)
+            continue
+        hooks.poison(False)
+        try:
+            if hooks.poly_has_poison(r):
+                ck.fail(name, "poison", "zero-terms", "coefficients that were never written (0xA5 pattern) are returned")
+        except Exception as err:
+            ck.fail(name, "poison-scan", "zero-terms", repr(err))
     # size-0 class (known finding, own key)
     for name, fn, shape in (("empty-slice", lambda: arr[3:], (0,)),
                             ("polynomial([])", lambda: numpoly.polynomial([]), (0,)),
